@@ -38,6 +38,7 @@ def generate(tier, seed, work, stats):
         cases.append(dict(prods=prods, vpool="upper", tpool="ab", family="random"))
     for c in cases:
         c["L"] = L(tier)
+    cases += [c for c in core.record_tests(["/repo/pyformlang"], work, {"remove_useless_symbols", "remove_epsilon", "eliminate_unit_productions", "to_normal_form"}, stats) if "G" in c["recorded"][0]]
     return cases
 
 
